@@ -240,7 +240,7 @@ func (db *RockDB) SAdd(ts int64, key []byte, args ...[]byte) (int64, error) {
 	slow.LogLargeCollection(int(newNum), slow.NewSlowLogInfo(string(table), string(key), "set"))
 	if newNum > collectionLengthForMetric {
 		metric.CollectionLenDist.With(ps.Labels{
-			"table": string(table),
+			"table": metric.LabelValue(string(table)),
 		}).Observe(float64(newNum))
 	}
 
